@@ -11,11 +11,13 @@ Model: `QuartzModel/Jobs/Status.lean`; property theorems: `Theorems/C16.lean`.
   job value and context, one `Execute` of the translated code stores exactly what `Jobs.fnStore` / `Jobs.shStore` /
   `Jobs.cuStore true` store (under the abstractions `absFn`, `absSh`, `absCu`), returns what `fnReturn`/`shReturn`/`cuReturn`
   return, and records exactly the listed events (`fnEvents`, `shEvents`, `cuHead ++ cuTail`, then the callback).
-* `trans_*_lock_discipline`: every write of a mutable field lies between the one `Lock` and the one `Unlock`; the user function
+* `trans_*_lock_discipline`: every write of a mutable field lies between the one `Lock` and the one (for CurlJob: deferred) `Unlock`; the user function
   and the callbacks run outside the lock; the accessors read under the lock.
 * transferred: `C16_function_status_iff`, `C16_shell_status_iff`, `C16_curl_status_iff`, `C16_last_execution_*`,
   `C16_callback_once`, `C16_open_bodies_le_one` (names `…_trans`).
-* FINDING `trans_curl_do_panic_holds_lock`: a panicking `HTTPHandler.Do` leaves `CurlJob.Execute` with `cu.mtx` locked.
+* `trans_curl_do_panic_releases_lock`, `trans_curl_close_panic_releases_lock`: a panicking `HTTPHandler.Do` / `Body.Close()` leaves
+  `CurlJob.Execute` with `cu.mtx` RELEASED (the critical section is the helper `do`, below `defer cu.mtx.Unlock()`).  Before the
+  repair this was the finding `trans_curl_do_panic_holds_lock`: the panic left the mutex locked for good.
 -/
 set_option autoImplicit false
 set_option linter.unusedSimpArgs false
@@ -335,16 +337,31 @@ theorem trans_curl_lock_discipline (resp : Option Response) (err : Option Err)
   · cases hc : cu.callback <;> cases hp : cuPrev cu <;> simp [cuHead, cuTail, hc, hp, heldAfter]
   · cases hc : cu.callback <;> cases hp : cuPrev cu <;> simp [cuHead, cuTail, hc, hp] <;> rfl
 
-/-- FINDING (negative): when the user's `HTTPHandler.Do` panics, `Execute` is left with `cu.mtx` HELD — there is no deferred
-`Unlock`.  The scheduler recovers job panics (`executeWithRetries`), so the job object stays locked for good: every later
-`Execute`, `JobStatus()` or `DumpResponse()` on it blocks forever. -/
-theorem trans_curl_do_panic_holds_lock (hclose : cuPrev cu = true → ∃ e, (cuClose X σ cu).2 = .returned e)
+/-- REPAIRED FINDING (was `trans_curl_do_panic_holds_lock`: a panicking `HTTPHandler.Do` left `cu.mtx` held for good).  `Execute` now
+runs its critical section in the helper `do` below `defer cu.mtx.Unlock()`: when the user's `HTTPHandler.Do` panics, the LAST
+recorded event is the `Unlock` — the mutex is not held when the panic reaches the scheduler (which recovers it), every access
+happened under the lock, no callback ran, and only `request` was written.  Later `Execute`/`JobStatus()`/`DumpResponse()` calls
+on the job find the mutex free. -/
+theorem trans_curl_do_panic_releases_lock (hclose : cuPrev cu = true → ∃ e, (cuClose X σ cu).2 = .returned e)
     (hdo : (cuDoCall X σ cu ctx).2 = .panicked) :
-    ∃ evs, (CurlJob.Execute X σ cu ctx).1.out = σ.out ++ evs ∧ heldAfter "cu.mtx" false evs = true ∧
+    ∃ evs, (CurlJob.Execute X σ cu ctx).1.out = σ.out ++ evs ∧ heldAfter "cu.mtx" false evs = false ∧
+      evs.getLast? = some (.unlock "cu.mtx") ∧ accessGuarded "cu.mtx" false evs = true ∧ callbacks evs = 0 ∧
+      (CurlJob.Execute X σ cu ctx).2.1 = { cu with request := cuReq cu ctx } ∧
       (CurlJob.Execute X σ cu ctx).2.2 = .panicked := by
   rw [cu_execute_do_panicked X σ cu ctx hclose hdo]
-  refine ⟨cuHead X σ cu ++ [.httpDo cu.httpClient (cuReq cu ctx) .panicked], by simp, ?_, rfl⟩
-  cases hp : cuPrev cu <;> simp [cuHead, hp, heldAfter]
+  refine ⟨cuHead X σ cu ++ [.httpDo cu.httpClient (cuReq cu ctx) .panicked, .unlock "cu.mtx"], by simp, ?_, ?_, ?_, ?_, rfl, rfl⟩
+  · cases hp : cuPrev cu <;> simp [cuHead, hp, heldAfter]
+  · simp
+  · cases hp : cuPrev cu <;> simp [cuHead, hp, accessGuarded]
+  · cases hp : cuPrev cu <;> simp [cuHead, hp, callbacks, isCallback]
+
+/-- the same for a panicking `Body.Close()` of the previously stored response: `Do` is not called, the mutex is released -/
+theorem trans_curl_close_panic_releases_lock (hp : cuPrev cu = true) (hclose : (cuClose X σ cu).2 = .panicked) :
+    ∃ evs, (CurlJob.Execute X σ cu ctx).1.out = σ.out ++ evs ∧ heldAfter "cu.mtx" false evs = false ∧
+      evs.getLast? = some (.unlock "cu.mtx") ∧ accessGuarded "cu.mtx" false evs = true ∧ callbacks evs = 0 ∧
+      (CurlJob.Execute X σ cu ctx).2.2 = .panicked := by
+  rw [cu_execute_close_panicked X σ cu ctx hp hclose]
+  exact ⟨_, rfl, by simp [heldAfter], by simp, by simp [accessGuarded], by simp [callbacks, isCallback], rfl⟩
 
 theorem trans_curl_accessors (body : Bool) :
     CurlJob.JobStatus X σ cu = (⟨σ.world, σ.out ++ [.lock "cu.mtx", .read "cu.jobStatus", .unlock "cu.mtx"]⟩, cu.jobStatus) ∧
@@ -465,8 +482,167 @@ def exCuPanic : CuExt Unit :=
     callback := fun w _ _ => (w, .returned ())
     dumpResponse := fun w _ _ => (w, ([], none)) }
 
-/-- a panicking HTTP client: the lock is still held when `Execute` is left -/
-example : heldAfter "cu.mtx" false (CurlJob.Execute exCuPanic ⟨(), []⟩ (NewCurlJobWithOptions (some {}) {}) 0).1.out = true := by
+/-- a panicking HTTP client: the lock is NOT held when `Execute` is left, the last event is the unlock, and a second `Execute`
+of the same job (the scheduler recovered the panic) takes the lock again and releases it again -/
+example :
+    let r := CurlJob.Execute exCuPanic ⟨(), []⟩ (NewCurlJobWithOptions (some {}) {}) 0
+    heldAfter "cu.mtx" false r.1.out = false ∧ r.1.out.getLast? = some (.unlock "cu.mtx") ∧ r.2.2 = .panicked ∧
+    accessGuarded "cu.mtx" false (CurlJob.Execute exCuPanic r.1 r.2.1 1).1.out = true ∧
+    heldAfter "cu.mtx" false (CurlJob.Execute exCuPanic r.1 r.2.1 1).1.out = false := by
+  decide
+
+/-- a response body whose `Close` panics (second execution): the lock is released as well -/
+def exCuClosePanic : CuExt Nat :=
+  { Do := fun w _ _ => (w + 1, .returned (some ⟨200, some (w + 1)⟩, none))
+    closeBody := fun w _ => (w, .panicked)
+    callback := fun w _ _ => (w, .returned ())
+    dumpResponse := fun w _ _ => (w, ([], none)) }
+
+example :
+    let r := CurlJob.Execute exCuClosePanic ⟨0, []⟩ (NewCurlJobWithOptions (some {}) {}) 0
+    let r' := CurlJob.Execute exCuClosePanic r.1 r.2.1 1
+    r.2.2 = .returned none ∧ cuPrev r.2.1 = true ∧ r'.2.2 = .panicked ∧ heldAfter "cu.mtx" false r'.1.out = false := by
+  decide
+
+/-! ## negative control: the shape of `CurlJob.Execute` BEFORE the repair
+
+`Unrepaired.Execute` is, verbatim, the definition `gotolean-jobs` generated from `job/curl_job.go` before the fix commit
+(`cu.mtx.Lock()` … `cu.httpClient.Do(cu.request)` … `cu.mtx.Unlock()` in `Execute` itself, no `defer`).  It is NOT regenerated: it
+documents the finding that the repair removed — with that shape a panicking `HTTPHandler.Do` left the mutex held. -/
+
+namespace Unrepaired
+
+def Execute {W : Type} (X : CuExt W) (σ : St W) (cu : CurlJob) (ctx : Ctx) : St W × CurlJob × CallResult (Option Err) :=
+  let σ := σ.emit (Event.lock "cu.mtx")
+  let σ := σ.emit (Event.read "cu.request")
+  let σ := σ.emit (Event.write "cu.request")
+  let cu := { cu with request := (Request.WithContext cu.request ctx) }
+  let σ := σ.emit (Event.read "cu.response")
+  let σ := σ.emit (Event.read "cu.response")
+  if (cu.response.isSome && ((deref cu.response).Body).isSome) then
+    let σ := σ.emit (Event.read "cu.response")
+    let r1 := σ.cuCloseBody X ((deref cu.response).Body)
+    let σ := r1.1
+    (match r1.2 with
+    | .panicked =>
+      (σ, cu, CallResult.panicked)
+    | .returned r1v =>
+      let err : Option Err := none
+      let σ := σ.emit (Event.read "cu.request")
+      let r2 := σ.cuDo X cu.httpClient cu.request
+      let σ := r2.1
+      (match r2.2 with
+      | .panicked =>
+        (σ, cu, CallResult.panicked)
+      | .returned r2v =>
+        let σ := σ.emit (Event.write "cu.response")
+        let cu := { cu with response := r2v.1 }
+        let err : Option Err := r2v.2
+        let σ := σ.emit (Event.read "cu.response")
+        let σ := σ.emit (Event.read "cu.response")
+        let σ := σ.emit (Event.read "cu.response")
+        let r3 :=
+          if ((cu.response.isSome && decide (((deref cu.response).StatusCode : Int) ≥ 200)) && decide (((deref cu.response).StatusCode : Int) < 400)) then
+            let σ := σ.emit (Event.write "cu.jobStatus")
+            let cu := { cu with jobStatus := Status.StatusOK }
+            (σ, cu)
+          else
+            let σ := σ.emit (Event.write "cu.jobStatus")
+            let cu := { cu with jobStatus := Status.StatusFailure }
+            (σ, cu)
+        let σ := r3.1
+        let cu := r3.2
+        let σ := σ.emit (Event.unlock "cu.mtx")
+        if cu.callback.isSome then
+          let r4 := σ.cuCallback X ctx cu
+          let σ := r4.1
+          (match r4.2 with
+          | .panicked =>
+            (σ, cu, CallResult.panicked)
+          | .returned _ =>
+            (σ, cu, CallResult.returned err))
+        else
+          (σ, cu, CallResult.returned err)))
+  else
+    let err : Option Err := none
+    let σ := σ.emit (Event.read "cu.request")
+    let r5 := σ.cuDo X cu.httpClient cu.request
+    let σ := r5.1
+    (match r5.2 with
+    | .panicked =>
+      (σ, cu, CallResult.panicked)
+    | .returned r5v =>
+      let σ := σ.emit (Event.write "cu.response")
+      let cu := { cu with response := r5v.1 }
+      let err : Option Err := r5v.2
+      let σ := σ.emit (Event.read "cu.response")
+      let σ := σ.emit (Event.read "cu.response")
+      let σ := σ.emit (Event.read "cu.response")
+      let r6 :=
+        if ((cu.response.isSome && decide (((deref cu.response).StatusCode : Int) ≥ 200)) && decide (((deref cu.response).StatusCode : Int) < 400)) then
+          let σ := σ.emit (Event.write "cu.jobStatus")
+          let cu := { cu with jobStatus := Status.StatusOK }
+          (σ, cu)
+        else
+          let σ := σ.emit (Event.write "cu.jobStatus")
+          let cu := { cu with jobStatus := Status.StatusFailure }
+          (σ, cu)
+      let σ := r6.1
+      let cu := r6.2
+      let σ := σ.emit (Event.unlock "cu.mtx")
+      if cu.callback.isSome then
+        let r7 := σ.cuCallback X ctx cu
+        let σ := r7.1
+        (match r7.2 with
+        | .panicked =>
+          (σ, cu, CallResult.panicked)
+        | .returned _ =>
+          (σ, cu, CallResult.returned err))
+      else
+        (σ, cu, CallResult.returned err))
+
+end Unrepaired
+
+/-- the former finding `trans_curl_do_panic_holds_lock`, now about the UNREPAIRED shape only: after a panicking `Do` the recorded
+events end with `lock … httpDo … panicked` — the mutex is still held when `Execute` is left (contrast:
+`trans_curl_do_panic_releases_lock` for the current code, same hypotheses) -/
+theorem trans_curl_do_panic_holds_lock_unrepaired {W : Type} (X : CuExt W) (σ : St W) (cu : CurlJob) (ctx : Ctx)
+    (hclose : cuPrev cu = true → ∃ e, (cuClose X σ cu).2 = .returned e)
+    (hdo : (cuDoCall X σ cu ctx).2 = .panicked) :
+    ∃ evs, (Unrepaired.Execute X σ cu ctx).1.out = σ.out ++ evs ∧ heldAfter "cu.mtx" false evs = true ∧
+      evs.getLast? = some (.httpDo cu.httpClient (cuReq cu ctx) .panicked) ∧
+      (Unrepaired.Execute X σ cu ctx).2.2 = .panicked := by
+  have h : Unrepaired.Execute X σ cu ctx =
+      (⟨(cuDoCall X σ cu ctx).1, σ.out ++ cuHead X σ cu ++ [.httpDo cu.httpClient (cuReq cu ctx) .panicked]⟩,
+       { cu with request := cuReq cu ctx }, .panicked) := by
+    by_cases hp : cuPrev cu = true
+    · obtain ⟨e, he⟩ := hclose hp
+      have hp' := hp
+      simp only [cuPrev] at hp'
+      simp only [cuDoCall, cuW1, cuReq, hp, if_true] at hdo
+      simp only [cuClose] at he hdo
+      simp [Unrepaired.Execute, St.cuCloseBody, St.cuDo, St.emit, cuHead, cuDoCall, cuW1, cuClose, cuReq, *]
+    · have hp' := hp
+      simp only [cuPrev] at hp'
+      simp only [cuDoCall, cuW1, cuReq, hp] at hdo
+      simp only [Bool.false_eq_true, if_false] at hdo
+      simp [Unrepaired.Execute, St.cuCloseBody, St.cuDo, St.emit, cuHead, cuDoCall, cuW1, cuClose, cuReq, *]
+  rw [h]
+  refine ⟨cuHead X σ cu ++ [.httpDo cu.httpClient (cuReq cu ctx) .panicked], by simp, ?_, by simp, rfl⟩
+  cases hp : cuPrev cu <;> simp [cuHead, hp, heldAfter]
+
+/-- the unrepaired shape with the panicking client of `exCuPanic`: the lock is still held; the current code releases it -/
+example :
+    heldAfter "cu.mtx" false (Unrepaired.Execute exCuPanic ⟨(), []⟩ (NewCurlJobWithOptions (some {}) {}) 0).1.out = true ∧
+    heldAfter "cu.mtx" false (CurlJob.Execute exCuPanic ⟨(), []⟩ (NewCurlJobWithOptions (some {}) {}) 0).1.out = false := by
+  decide
+
+/-- when nothing panics the two shapes record the same events, store the same job and return the same value (the repair does
+not change the behaviour otherwise) — on the two-request example -/
+example :
+    let a := Unrepaired.Execute exCu ⟨0, []⟩ (NewCurlJobWithOptions (some {}) {}) 3
+    let b := CurlJob.Execute exCu ⟨0, []⟩ (NewCurlJobWithOptions (some {}) {}) 3
+    a.1.out = b.1.out ∧ a.1.world = b.1.world ∧ a.2 = b.2 ∧ b.1.out.length = 13 := by
   decide
 
 end TransJobs
